@@ -196,7 +196,8 @@ def apply_op(mpc, secint, op, x, c, nested):
     if op == 'ifelse': return mpc.if_else(x[0] < x[2], x[1], x[2])
     if op == 'ifelse_l':
         r = mpc.if_else(x[0] < x[2], [x[1], x[0]], [x[2], x[1]])
-        return r[0] + r[1]
+        r.append(r.pop(0))
+        return r[1] + r[0]
     if op == 'ifswap0': return mpc.if_swap(x[0] < x[1], x[1], x[2])[0]
     if op == 'ifswap1': return mpc.if_swap(x[0] < x[1], x[1], x[2])[1]
     if op == 'floordiv': return x[0] // c
@@ -221,7 +222,9 @@ def apply_op(mpc, secint, op, x, c, nested):
         A, B = [[x[0], x[1]]], [[x[2], x[3]], [x[3], x[2]]]
         r = mpc.matrix_prod(A, B)
         _reuse(A[0], B[0], B[1], B)
-        return r[0][0] - r[0][1]
+        row = r[0]
+        row.reverse()                      # result lists are the caller's too: rearranged before the product has been computed
+        return row[1] - row[0]
     if op == 'gcd': return mpc.gcd(x[0], x[1])
     if op == 'lcm': return mpc.lcm(x[0], x[1])
     if op == 'gcdext_g': return mpc.gcdext(x[0], x[1])[0]
